@@ -55,6 +55,13 @@ func c07Classify(c oracle.CharSpec) (nontrivial bool, key string) {
 func c07Run(cs c07Case) error {
 	c := cs.Spec
 	// premise of C07: every required set keeps a non-excluded character
+	for _, set := range c.RequireSets {
+		if set == "" {
+			// a custom set given empty keeps no character either
+			ev.Class("premise_failed_skipped")
+			return &ev.Skip{Why: "an empty custom required set (outside C07's premise)"}
+		}
+	}
 	if c.EmptiedRequired() > 0 {
 		ev.Class("premise_failed_skipped")
 		return &ev.Skip{Why: "a required set is emptied by exclusion (outside C07's premise)"}
